@@ -218,7 +218,7 @@ PROPS["C01"] = dict(
                  "collector's contract and are not generated", "boxed objects have exactly one owner"],
 )
 for _n in ("struct", "struct+Mark", "struct@addr", "Ref", "Box", "Array<Ref>", "List<Ref>", "Array<struct>",
-           "Table<Int,Ref>", "Table<Ref,Ref>", "Tree<Int,Ref>", "Tree<Ref,Ref>", "Tuple"):
+           "Table<Int,Ref>", "Table<Ref,Ref>", "Tree<Int,Ref>", "Tree<Ref,Ref>", "Tuple", "Thread-not-started"):
     PROPS["C01"]["floors"]["quick"]["kind_checked:" + _n] = 1
 
 PROPS["C17"] = dict(
@@ -394,7 +394,7 @@ PROPS["C20"] = dict(
     floors={"quick": {"closed_file_probes": 200, "reads_past_the_end": 50, "zero_byte_writes": 20,
                       "writes_larger_than_a_stdio_buffer": 20, "seeks_from_start": 50, "seeks_from_current": 50,
                       "seeks_from_end": 50, "reopens_while_open": 50, "dels_of_open_files": 20, "with_blocks": 1,
-                      "text_roundtrips": 1, "record_wise_reads": 6, "append_opens": 50, "formatted_writes": 50}},
+                      "text_roundtrips": 1, "record_wise_reads": 6, "stack_file_lifecycles": 3, "append_opens": 50, "formatted_writes": 50}},
     rule="case = one File object driven through 20-80 (thorough: up to 140) random stream operations; distinct = hash "
          "of the operation list; non-trivial = at least 20 operations",
     assumptions=["one File object per case, one file on disk per shard", "offsets stay within the file"],
